@@ -38,6 +38,128 @@ theorem cget_cons_succ (a : UInt8) (t : Bytes) (i : Nat) : cget (a :: t) (i + 1)
 theorem cget_append_right (a b : Bytes) : cget (a ++ b) a.length = cget b 0 := by
   simp [cget, List.getD_eq_getElem?_getD, List.getElem?_append_right]
 
+/-- a round that appends only appends plain octets (a SP for a folded line, or the run the inner loop stepped over) -/
+theorem plainRun_take (l : Bytes) (k : Nat) : ∀ x ∈ l.take (plainRun l k), isPlainQ x = true := by
+  induction l generalizing k with
+  | nil => simp [plainRun]
+  | cons c r ih =>
+    cases k with
+    | zero => simp [plainRun]
+    | succ k =>
+      simp only [plainRun]
+      split
+      · rename_i hc
+        intro x hx
+        rw [Nat.add_comm, List.take_succ_cons] at hx
+        simp only [List.mem_cons] at hx
+        rcases hx with rfl | hx
+        · exact hc
+        · exact ih k x hx
+      · simp
+
+theorem qsLf_next (t : Bytes) (len pos : Nat) (val : Bytes) (p : Nat) (v : Bytes) (h : qsLf t len pos val = .next p v) :
+    v = val ++ [32] := by
+  unfold qsLf at h
+  simp only at h
+  split at h
+  · simp at h
+  · simp only [QsStep.next.injEq] at h; exact h.2.symm
+
+theorem qsRun_next (t : Bytes) (len pos : Nat) (val : Bytes) (p : Nat) (v : Bytes) (h : qsRun t len pos val = .next p v) :
+    ∃ piece, v = val ++ piece ∧ ∀ x ∈ piece, isPlainQ x = true := by
+  unfold qsRun at h
+  simp only at h
+  split at h
+  · simp at h
+  · simp only [QsStep.next.injEq] at h
+    exact ⟨_, h.2.symm, plainRun_take _ _⟩
+
+theorem qsRun_not_finish (t : Bytes) (len pos : Nat) (val v : Bytes) : qsRun t len pos val ≠ .finish v := by
+  unfold qsRun
+  simp only
+  split <;> simp
+
+theorem qsLf_not_finish (t : Bytes) (len pos : Nat) (val v : Bytes) : qsLf t len pos val ≠ .finish v := by
+  unfold qsLf
+  simp only
+  split <;> simp
+
+theorem qsPlain_next (t : Bytes) (len pos : Nat) (val : Bytes) (p : Nat) (v : Bytes) (h : qsPlain t len pos val = .next p v) :
+    ∃ piece, v = val ++ piece ∧ ∀ x ∈ piece, isPlainQ x = true := by
+  unfold qsPlain at h
+  split at h
+  · split at h
+    · simp at h
+    · exact qsRun_next _ _ _ _ _ _ h
+  · exact qsRun_next _ _ _ _ _ _ h
+
+theorem qsPlain_not_finish (t : Bytes) (len pos : Nat) (val v : Bytes) : qsPlain t len pos val ≠ .finish v := by
+  unfold qsPlain
+  split
+  · split
+    · simp
+    · exact qsRun_not_finish _ _ _ _ _
+  · exact qsRun_not_finish _ _ _ _ _
+
+theorem qsStep_next (t : Bytes) (len pos : Nat) (val : Bytes) (p : Nat) (v : Bytes) (h : qsStep t len pos val = .next p v) :
+    ∃ piece, v = val ++ piece ∧ ∀ x ∈ piece, isPlainQ x = true := by
+  unfold qsStep at h
+  simp only at h
+  split at h
+  · split at h <;> simp at h
+  · split at h
+    · split at h
+      · simp at h
+      · exact ⟨[32], qsLf_next _ _ _ _ _ _ h, by decide⟩
+    · split at h
+      · exact ⟨[32], qsLf_next _ _ _ _ _ _ h, by decide⟩
+      · exact qsPlain_next _ _ _ _ _ _ h
+
+theorem qsStep_finish (t : Bytes) (len pos : Nat) (val v : Bytes) (h : qsStep t len pos val = .finish v) : v = val := by
+  unfold qsStep at h
+  simp only at h
+  split at h
+  · split at h
+    · simp only [QsStep.finish.injEq] at h; exact h.symm
+    · simp at h
+  · split at h
+    · split at h
+      · simp at h
+      · exact absurd h (qsLf_not_finish _ _ _ _ _)
+    · split at h
+      · exact absurd h (qsLf_not_finish _ _ _ _ _)
+      · exact absurd h (qsPlain_not_finish _ _ _ _ _)
+
+/-- whatever the parser returns consists of plain octets only (no DQUOTE, backslash, control, DEL) -/
+theorem qsLoop_plain (t : Bytes) (len f pos : Nat) (val v : Bytes) (hval : ∀ x ∈ val, isPlainQ x = true)
+    (h : qsLoop t len f pos val = some v) : ∀ x ∈ v, isPlainQ x = true := by
+  induction f generalizing pos val with
+  | zero => simp [qsLoop] at h
+  | succ f ih =>
+    simp only [qsLoop] at h
+    cases hs : qsStep t len pos val with
+    | fail => simp [hs] at h
+    | finish w =>
+      simp only [hs, Option.some.injEq] at h
+      subst h
+      rw [qsStep_finish _ _ _ _ _ hs]; exact hval
+    | next p w =>
+      simp only [hs] at h
+      obtain ⟨piece, rfl, hp⟩ := qsStep_next _ _ _ _ _ _ hs
+      refine ih _ _ ?_ h
+      intro x hx
+      simp only [List.mem_append] at hx
+      rcases hx with hx | hx
+      · exact hval x hx
+      · exact hp x hx
+
+theorem parseQuoted_plain_chars (t : Bytes) (len : Nat) (v : Bytes) (h : parseQuoted t len = some v) :
+    ∀ x ∈ v, isPlainQ x = true := by
+  unfold parseQuoted at h
+  split at h
+  · simp at h
+  · exact qsLoop_plain t len _ 1 [] v (by simp) h
+
 /-- a quoted-string without quoted-pairs whose content is free of controls: the content, whatever follows the closing quote -/
 theorem parseQuoted_plain (v rest : Bytes) (len : Nat) (hv : ∀ c ∈ v, isPlainQ c = true) (hlen : v.length + 1 ≤ len) :
     parseQuoted (34 :: (v ++ 34 :: rest)) len = some v := by
@@ -47,7 +169,7 @@ theorem parseQuoted_plain (v rest : Bytes) (len : Nat) (hv : ∀ c ∈ v, isPlai
   cases v with
   | nil =>
     have h1 : cget (34 :: 34 :: rest) 1 = 34 := rfl
-    simp only [List.nil_append, qsLoop, h1]
+    simp only [List.nil_append, qsLoop, qsStep, h1]
     simp
   | cons a v =>
     obtain ⟨f1, f2, f3, f4, f5, f6, f7⟩ := isPlainQ_facts a (hv a (List.mem_cons_self))
@@ -58,10 +180,14 @@ theorem parseQuoted_plain (v rest : Bytes) (len : Nat) (hv : ∀ c ∈ v, isPlai
     have he : cget (34 :: (a :: v ++ 34 :: rest)) (1 + (a :: v).length) = 34 := by
       rw [Nat.add_comm, cget_cons_succ, cget_append_right]; rfl
     have hlen2 : len > 1 := by simp at hlen; omega
+    have hstep1 : qsStep (34 :: (a :: v ++ 34 :: rest)) len 1 [] = .next (1 + (a :: v).length) (a :: v) := by
+      simp only [qsStep, h1, ne_eq, f1, not_false_eq_true, hlen2, and_self, not_true_eq_false, ↓reduceIte, f3, f4,
+        qsPlain, f2, qsRun, hrun, he]
+      simp
+    have hstep2 : qsStep (34 :: (a :: v ++ 34 :: rest)) len (1 + (a :: v).length) (a :: v) = .finish (a :: v) := by
+      simp only [qsStep, he]
+      simp
     rw [show len + 2 = (len + 1) + 1 from rfl]
-    simp only [qsLoop, h1, ne_eq, f1, not_false_eq_true, hlen2, and_self, not_true_eq_false, ↓reduceIte, f3, false_and, f4,
-      f2, hrun, he]
-    simp only [show ¬ ((34 : UInt8) ≤ 31 ∧ ¬ (34 : UInt8) = 13 ∧ ¬ (34 : UInt8) = 10 ∨ (34 : UInt8) = 127) by decide, ↓reduceIte]
-    simp
+    simp only [qsLoop, hstep1, hstep2]
 
 end SquidModel.Cc
